@@ -798,3 +798,66 @@ Proof.
   exists [0]. split; [vm_compute; reflexivity|]. split; [vm_compute; reflexivity|].
   apply run_fixpoint. intros [|[|i]]; try (vm_compute; reflexivity). destruct i; vm_compute; reflexivity.
 Qed.
+
+(* ================================================================================================ *)
+(* P. the batched counter: exactly one flush on every exit path                                      *)
+(* ================================================================================================ *)
+Open Scope N_scope.
+Lemma cp_fold_inv threshold chunks : forall s, cp_counter s + cp_batch s = cp_total s ->
+  let s' := fold_left (cp_chunk threshold) chunks s in
+  cp_counter s' + cp_batch s' = cp_total s' /\ cp_total s' = cp_total s + fold_right N.add 0 chunks.
+Proof.
+  induction chunks as [|n r IH]; intros s H; cbn [fold_left fold_right]; [split; [exact H|lia]|].
+  assert (H' : cp_counter (cp_chunk threshold s n) + cp_batch (cp_chunk threshold s n) = cp_total (cp_chunk threshold s n)).
+  { unfold cp_chunk. destruct (threshold <=? cp_batch s + n); cbn [cp_counter cp_batch cp_total]; lia. }
+  destruct (IH _ H') as [I1 I2]. split; [exact I1|].
+  rewrite I2. unfold cp_chunk. destruct (threshold <=? cp_batch s + n); cbn [cp_total]; lia.
+Qed.
+
+(* EVERY sequence of delivered chunks, EVERY threshold, BOTH exit paths (context check / break): the shared counter ends up
+   equal to the bytes delivered *)
+Theorem copy_counter_exact threshold chunks via_ctx :
+  let s := cp_run true true false threshold chunks via_ctx in
+  cp_counter s = fold_right N.add 0 chunks /\ cp_total s = fold_right N.add 0 chunks.
+Proof.
+  unfold cp_run.
+  destruct (cp_fold_inv threshold chunks {| cp_counter := 0; cp_batch := 0; cp_total := 0 |}) as [H1 H2]; [reflexivity|].
+  cbn [cp_total] in H2. unfold cp_exit. destruct via_ctx; cbn [cp_counter cp_total]; split; lia.
+Qed.
+
+(* the half-finished "flush with a defer" refactoring (deferred flush added, the explicit add in the context branch kept):
+   leaving through the context check counts the unflushed tail twice *)
+Lemma copy_counter_double_flush_refuted :
+  cp_counter (cp_run true false true 1048576 [7; 7; 7] true) = 42 /\ cp_total (cp_run true false true 1048576 [7; 7; 7] true) = 21.
+Proof. vm_compute. auto. Qed.
+Close Scope N_scope.
+
+(* ================================================================================================ *)
+(* Q. the connection slot is released exactly once                                                   *)
+(* ================================================================================================ *)
+Definition QSInv (s : qslot * list bool) : Prop :=
+  (qs_active (fst s) + (if qs_once (fst s) then 1 else 0))%Z = 1%Z.
+
+Lemma qsinv_step s i : QSInv s -> QSInv (sys_step _ _ (qrelease true) s i).
+Proof.
+  destruct s as [sh ls]. unfold QSInv, sys_step. cbn [fst snd]. intros H.
+  destruct (nth_error ls i) as [x|]; [|exact H].
+  destruct sh as [a o]. destruct x; cbn [qrelease fst snd]; [exact H|].
+  destruct o; cbn [fst snd qs_active qs_once] in *; lia.
+Qed.
+
+(* ANY number of release attempts (the tunnel's OnClosed, the deferred failure path, ...), ANY schedule: the counter of a
+   connection that took one slot is 1 or 0, never negative, and 0 exactly when a release has happened *)
+Theorem slot_released_once k sched :
+  let s := run _ _ (qrelease true) (qsinit, repeat false k) sched in
+  (qs_active (fst s) = 1%Z \/ qs_active (fst s) = 0%Z) /\ (qs_once (fst s) = true <-> qs_active (fst s) = 0%Z).
+Proof.
+  intros s. assert (HI : QSInv s) by (unfold s; apply inv_all_schedules; [intros s0 i; apply qsinv_step|reflexivity]).
+  unfold QSInv in HI. destruct (qs_once (fst s)); split; try (split; intros; try lia; try reflexivity; try discriminate); lia.
+Qed.
+
+(* the plain decrement: OnClosed (close notification between RegisterTunnel and Start) and the deferred failure path both
+   release: the counter goes to -1 *)
+Lemma slot_plain_decrement_refuted :
+  exists sched, qs_active (fst (run _ _ (qrelease false) (qsinit, [false; false]) sched)) = (-1)%Z.
+Proof. exists [0; 1]. vm_compute. reflexivity. Qed.
